@@ -31,22 +31,41 @@ from .common import parallel_map
 
 RULE = ("cases = environment deltas (synthetic old/new pairs; sequences of real table actions with and without "
         "--force; setup/unsetup on real stacks whose product directories contain blanks and < > | & ; ( )) rendered by "
-        "the real eups.app.setup and sourced by dash and bash, plus command texts run by both shells against shEval; "
+        "the real eups.app.setup and sourced by dash and bash (environment, shell functions, echoed text, exit status), "
+        "invocations of the real wrapper script bin/eups_setup on real stacks through every exit of EupsSetup.run/execute, "
+        "plus command texts (with function definitions, echo, double quotes) run by both shells against shEval / shEvalF; "
         "plus every value of length <= 2 (thorough: 3) over a 14-symbol alphabet of metacharacters; "
         "a delta case is non-trivial when at least one command is emitted, a shell text when it lies in the modelled "
         "fragment and changes the environment; distinct = distinct case digests")
-TRUSTED = ["/bin/dash and /bin/bash as installed (the word-level shell model shEval is compared with both on every run, "
-           "not verified)",
+TRUSTED = ["/bin/dash and /bin/bash as installed (the shell models shEval / shEvalF — words, single and double quotes, "
+           "function definitions, echo, exit status — are compared with both on every run, not verified)",
            "CPython `re` on the three patterns of the emitter (^['\"].*['\"]$, [\\s<>|&;()], ^EUPS_(DIR|PATH|PKGROOT|SHELL)$): "
            "hand-translated, exercised on every run",
            "`env -0` (GNU coreutils) reports the shell's exported environment; the variables the shells maintain "
            "themselves (_ PWD OLDPWD SHLVL) are ignored"]
 ASSUMPTIONS = ["variable names are identifiers and not variables the shells treat specially (IFS, PS1, UID, BASH*, LC_*, ...)",
-               "values in the claim are over [A-Za-z0-9/._:+=,@%^-] plus space, tab, newline and < > | & ; ( ); quote "
-               "characters, $, backquote, backslash, ~, braces, glob characters, ! and # are outside the claim",
-               "shell functions (aliases) are emitted and compared as text; their evaluation is exercised on the real "
-               "shells only, not modelled by shEval",
-               "csh/zsh emission is compared as text only (no csh/zsh binary installed)"]
+               "values in the claim are over [A-Za-z0-9/._:+=,@%^-] plus space, tab, newline and < > | & ; ( ), or - the class "
+               "eups single-quotes - any value without a single quote that holds a character of [\\s<>|&;()] and is not already "
+               "wrapped in quotes ($NAME, ${NAME}, backquotes, backslashes, double quotes, ~, braces, glob characters are literal "
+               "inside the quotes); values with $, backquote, backslash, quote characters etc. that eups does NOT quote are "
+               "outside the claim (eups deliberately passes them to the shell)",
+               "alias values in the claim are plain command lines (words over the safe characters separated by blanks, "
+               "the first not a reserved word); other alias values are passed to the shell as they are (eups does not "
+               "quote them) and are compared with shEvalF only where its fragment reaches (\"$@\", $@, single quotes, "
+               "several commands)",
+               "no csh or zsh binary is installed: zsh texts (same commands as sh) are sourced by dash and bash; csh texts are "
+               "compared with the model as text and read by a small csh word reader written from the manual (csh_read: single "
+               "quotes literal, no newline inside) for oracle (ii)",
+               "EUPS_LOCK_PID, which lock.takeLocks puts into the process environment for its children before Eups takes "
+               "the baseline of the delta, is not part of the computed environment (command-line cases)"]
+
+MIRRORS = [("python/eups/app.py", "setup"), ("python/eups/app.py", "unsetup"), ("python/eups/setupcmd.py", "*"),
+           ("bin/eups_setup.in", "*"), ("python/eups/utils.py", "guessProduct"),
+           ("python/eups/Eups.py", "Eups.setEnv"), ("python/eups/Eups.py", "Eups.unsetEnv"),
+           ("python/eups/Eups.py", "Eups.setAlias"), ("python/eups/Eups.py", "Eups.unsetAlias"),
+           ("python/eups/Eups.py", "Eups.popStack"), ("python/eups/Eups.py", "Eups.pushStack"),
+           ("python/eups/table.py", "Action.execute_envSet"), ("python/eups/table.py", "Action.execute_envPrepend"),
+           ("python/eups/table.py", "Action.execute_addAlias")]
 
 DASH = ["/bin/dash"]
 BASH = ["/bin/bash", "--norc", "--noprofile"]
@@ -115,6 +134,8 @@ def gen_value(rng, claim=True):
     r = rng.random()
     if r < 0.06:
         return ""
+    if claim and rng.random() < 0.12:
+        return gen_quoted_special(rng)
     if r < 0.30:        # plain path-like text
         v = "".join(rng.choice(SAFE) for _ in range(rng.randint(1, 12)))
     elif r < 0.50:      # path with blanks and metacharacters in a directory name
@@ -147,8 +168,48 @@ def gen_value(rng, claim=True):
     return v
 
 
+SPECIAL_BITS = ["$ORIGIN", "${ORIGIN}", "$HOME", "${PRODUCT_DIR}", "$", "$$", "`", "`true`", "\\", "\\n", "\\$", "\"", "\"x\"", "~", "{a,b}",
+                "*", "?", "[ab]", "!", "#", "$(true)", "${X:-y}", "\\\\"]
+
+
+def gen_quoted_special(rng):
+    """A value that eups single-quotes (it holds a blank or one of < > | & ; ( )) and that ALSO holds text the shell would
+    expand or unquote were it not inside single quotes: $NAME, ${NAME}, a backquote, a backslash sequence, a double
+    quote.  No single quote.  E.g. `-L${PRODUCT_DIR}/lib -Wl,-rpath,$ORIGIN/../lib`, `(tool) $ `."""
+    if rng.random() < 0.25:
+        return rng.choice(["-L${PRODUCT_DIR}/lib -Wl,-rpath,$ORIGIN/../lib", "(tool) $ ", "a \\ b", "say \"hi\" > `tty`", "$HOME/my dir",
+                           "x;$y", "\\n <nl>", "${A} ${B}", "cost: $5 & up", "a`b c", "\" \""])
+    parts = []
+    for _ in range(rng.randint(2, 5)):
+        r = rng.random()
+        if r < 0.4:
+            parts.append(rng.choice(SPECIAL_BITS))
+        elif r < 0.7:
+            parts.append("".join(rng.choice(SAFE) for _ in range(rng.randint(1, 5))))
+        else:
+            parts.append(rng.choice(META))
+    if not any(c in META for p_ in parts for c in p_):
+        parts.insert(rng.randint(0, len(parts)), rng.choice(" <>|&;()"))
+    if not any(p_ in SPECIAL_BITS for p_ in parts):
+        parts.insert(rng.randint(0, len(parts)), rng.choice(SPECIAL_BITS))
+    v = "".join(parts)
+    if re.search(r"^['\"].*['\"]$", v):       # would be taken for an already quoted value
+        v = "x" + v
+    return v
+
+
 def in_alphabet(v):
     return all(c in SAFE or c in META for c in v)
+
+
+def quoted_literal(v):
+    """eups single-quotes the value (non-empty, not already wrapped in quotes, holds a character of [\\s<>|&;()]) and the
+    value holds no single quote: inside the quotes every character is literal for an sh-family shell, $ ` \\ " included"""
+    return bool(v) and not re.search(r"^['\"].*['\"]$", v) and bool(re.search(r"[\s<>|&;()]", v)) and "'" not in v
+
+
+def in_claim_value(v):
+    return in_alphabet(v) or quoted_literal(v)
 
 
 def gen_env(rng, n, claim=True):
@@ -182,9 +243,9 @@ def gen_emit(rng):
             new.insert(rng.randint(0, len(new)), [k, v])
     shell = "sh"
     r = rng.random()
-    if r < 0.10:
+    if r < 0.14:
         shell = "csh"
-    elif r < 0.15:
+    elif r < 0.20:
         shell = "zsh"
     opts = {"shell": shell, "noaction": rng.random() < 0.12, "verbose2": rng.random() < 0.3,
             "isEups": rng.random() < 0.12, "fwd": rng.random() < 0.6}
@@ -251,22 +312,42 @@ def gen_acts(rng):
     """Real table actions.  The value each path action must produce is computed here from the structured
     description (distinct atoms, ':' delimiter), so the model is given the action's *result*, not its text."""
     base = gen_env(rng, rng.randint(0, 6))
+    for pair in base:
+        # the table's own variable syntax in a value the path actions rewrite: expanded by Eups.setEnv (C12's business)
+        while "${" in pair[1] or "$?" in pair[1]:
+            pair[1] = gen_value(rng)
     names = [k for k, _ in base] or ["A"]
     env = dict(base)
     acts = []
     force = rng.random() < 0.5
-    for _ in range(rng.randint(1, 5)):
+    saved = []          # what pushStack("env") saved (the generator's own copy of the expected environment)
+    for _ in range(rng.randint(1, 6)):
         k = rng.choice(names) if rng.random() < 0.7 else gen_name(rng)
         if k in PROTECTED and rng.random() < 0.8:
             continue
         r = rng.random()
         fwd = rng.random() < 0.55
+        if rng.random() < 0.25:
+            # an optional / nested setup: pushStack("env") ... then popStack (it failed: changes thrown away) or dropStack
+            if saved and rng.random() < 0.6:
+                if rng.random() < 0.6:
+                    env = saved.pop()
+                    acts.append({"op": "pop"})
+                else:
+                    saved.pop()
+                    acts.append({"op": "drop"})
+            else:
+                saved.append(dict(env))
+                acts.append({"op": "push"})
+            continue
         if rng.random() < 0.12:
             ak, av = rng.choice([("ll", "ls -l"), ("e", "echo hi"), ("gg", "git grep \"$@\""), ("KEEP", "true")])
             acts.append({"op": "alias", "fwd": fwd, "k": ak, "v": av})
             continue
         if r < 0.5:
             v = gen_value(rng) if rng.random() < 0.85 else ""
+            while "${" in v or "$?" in v:       # the table's own variable syntax: expanded by Action.execute (C12's business)
+                v = gen_value(rng)
             if "-f" == v or v.startswith("-f"):
                 v = "x" + v
             text = v if (v or rng.random() < 0.5) else "$?{C05_NOT_DEFINED}"
@@ -290,10 +371,11 @@ def gen_acts(rng):
             acts.append({"op": "unset", "fwd": fwd, "k": k})
             if fwd:
                 env.pop(k, None)
-    if not acts:
+    if not [a for a in acts if "fwd" in a]:
         acts.append({"op": "envSet", "fwd": False, "k": names[0], "text": "x", "v": "x"})
     return {"kind": "acts", "base": base, "acts": acts, "force": force,
-            "opts": {"shell": "sh", "noaction": False, "verbose2": False, "isEups": False, "fwd": acts[-1]["fwd"]}}
+            "opts": {"shell": "sh", "noaction": False, "verbose2": False, "isEups": False,
+                     "fwd": [a for a in acts if "fwd" in a][-1]["fwd"]}}
 
 
 def weird_dirname(rng):
@@ -322,7 +404,9 @@ def gen_stack(rng):
         if rng.random() < 0.4:
             lines.append("envAppend(LD_LIBRARY_PATH, ${PRODUCT_DIR}/lib)")
         if rng.random() < 0.3:
-            lines.append("envSet(%s_OPTS, \"%s\")" % (name.upper(), rng.choice(["-O2 -g", "a;b", "x|y", "(z)", "k=v w"])))
+            lines.append("envSet(%s_OPTS, \"%s\")" % (name.upper(), rng.choice(
+                ["-O2 -g", "a;b", "x|y", "(z)", "k=v w", "-L${PRODUCT_DIR}/lib -Wl,-rpath,$ORIGIN/../lib", "(tool) $ ",
+                 "-Wl,-rpath,$ORIGIN/../lib -O2", "cost $5 (approx)", "say `tty` > x", "a \\\\ b", "$HOME/my dir"])))
         if rng.random() < 0.25:
             lines.append("addAlias(%s_ls, ls -l)" % name)
         if i + 1 < n:
@@ -415,6 +499,76 @@ def gen_shell(rng):
     return {"kind": "shell", "env": env, "text": text}
 
 
+FN_POOL = [("ll", "ls -l"), ("e", "echo hi"), ("gg", "git grep \"$@\""), ("w", "echo $@ done"), ("KEEP", "true"),
+           ("two", "a b; c"), ("q", "printf 'a  b'"), ("p0_ls", "ls -l"), ("A", "x")]
+FN_NAMES = ["ll", "e", "gg", "w", "KEEP", "two", "q", "p0_ls", "A", "N1", "f_1", "export", "unset", "true", "echo", "if", "done",
+            "time", "in", "select", "x1"]
+BODIES = ["ls -l", "echo hi", "git grep \"$@\"", "echo $@ done", "a b; c", "a;b", "a\nb", "printf 'a  b'", "'x y' z", "a=1 b",
+          "ls }", "}", "a ; }", "if", "a; if", "a if", "do", "time", "in x", "", " ", "a ;", "a;;b", "echo \"x\"", "echo $A",
+          "echo ${A}", "a | b", "a > f", "(a)", "a & b", "x\ty", "-l", "a 'b", "ls -l /my:dir/x=1,y@z%^+"]
+
+
+def gen_fndef(rng, name=None, body=None):
+    name = name or rng.choice(FN_NAMES)
+    body = rng.choice(BODIES) if body is None else body
+    r = rng.random()
+    if r < 0.6:
+        return "%s() { %s ; }" % (name, body)           # the emitter's shape
+    return rng.choice(["%s(){ %s ; }", "%s () { %s ; }", "%s()\n{ %s ; }", "%s() {%s ; }", "%s() { %s; }", "%s() { %s ;}",
+                       "%s() { %s }", "%s() { %s\n}", "%s()\t{\t%s ;\t}", "%s( ) { %s ; }", "'%s'() { %s ; }",
+                       "%s() { %s ; } x", "%s() { %s ; } ;", "x %s() { %s ; }", "%s() %s", "%s() { %s ; }}"]) % (name, body)
+
+
+def gen_echo(rng):
+    r = rng.random()
+    if r < 0.5:                                          # what -n prints
+        k = rng.choice(NAMES)
+        v = gen_value(rng, claim=rng.random() < 0.9)
+        q = "'%s'" % v if (v and not in_safe(v)) else v
+        return rng.choice(["echo \"export %s=%s\"" % (k, q), "echo \"unset %s\"" % k, "echo \"unset -f %s\"" % k,
+                           "echo \"%s\"" % gen_fndef(rng)])
+    return rng.choice(["echo", "echo a b", "echo a  b", "echo 'a  b' c", "echo \"x\"y'z'", "echo -n x", "echo -e x", "echo - x",
+                       "echo x -n", "echo \"\"", "echo ''", "echo \"a;b\nc\"", "echo \"a'b\"", "echo 'a\"b'", "echo \"$A\"",
+                       "echo \"a`b\"", "echo \"a\\b\"", "echo 'a\\nb'", "echo \"a", "echo \"(x) <y> |z& ;\"", "echo \"!\"",
+                       "echo a\"b c\"d", "'echo' x", "echo \"a\tb\"", "echo x=1", "echo \"#x\"", "echo \"*\""])
+
+
+def gen_shellf(rng):
+    """A command text with function definitions, echo lines, double quotes and `false`, started with some shell
+    functions already defined."""
+    env = gen_env(rng, rng.randint(0, 4))
+    names = [k for k, _ in env] + ["N1", "N2"]
+    funcs0 = [[k, v] for k, v in rng.sample(FN_POOL, rng.randint(0, 3)) if "$" not in v and "'" not in v]
+    cmds = []
+    for _ in range(rng.randint(1, 5)):
+        r = rng.random()
+        k = rng.choice(names)
+        if r < 0.35:
+            if rng.random() < 0.6:
+                n, b = rng.choice(FN_POOL)
+                cmds.append(gen_fndef(rng, n if rng.random() < 0.8 else None, b if rng.random() < 0.8 else None))
+            else:
+                cmds.append(gen_fndef(rng))
+        elif r < 0.55:
+            cmds.append(gen_echo(rng))
+        elif r < 0.67:
+            v = gen_value(rng)
+            cmds.append("export %s=%s" % (k, "'%s'" % v if (v and not in_safe(v)) else v))
+        elif r < 0.75:
+            cmds.append("unset %s" % k)
+        elif r < 0.87:
+            cmds.append("unset -f %s" % " ".join(rng.choice(FN_NAMES[:11]) for _ in range(rng.randint(1, 2))))
+        elif r < 0.93:
+            cmds.append(rng.choice(["false", "true", ":", "false x", "'false'"]))
+        elif r < 0.96:
+            cmds.append("export %s=\"%s\"" % (k, gen_value(rng, claim=rng.random() < 0.8)))
+        else:
+            cmds.append(rng.choice(["ll", "e", "export A=\"a b\"c'd e'", "\"export\" A=1", "unset \"A\"", "A=\"x\"", "\"", "\"\"", "unset -f \"ll\""]))
+    sep = rng.choice([";\n", ";\n", ";\n", "\n", ";", " ; "])
+    text = sep.join(cmds) + rng.choice(["", "\n", ";", ";\n"])
+    return {"kind": "shellf", "env": env, "funcs": funcs0, "text": text}
+
+
 def in_safe(v):
     return all(c in SAFE for c in v)
 
@@ -450,27 +604,82 @@ def shell_cwd():
     return _CWD
 
 
-def run_shells(env_pairs, text, how="c", scratch=None):
-    """Evaluate text in dash and bash started with exactly env_pairs; returns {shell: env dict | None}.
+FN_MARK = b"\0\0C05-FN-FOLLOWS\0"
+IDENT = re.compile(r"^[A-Za-z_][A-Za-z0-9_]*$")
+
+
+def _tail(fn_names):
+    t = "\nc05status=$?\nprintf '\\0\\0C05-ENV-FOLLOWS\\0'\n/usr/bin/env -0\nprintf '\\0\\0C05-FN-FOLLOWS\\0'\n" \
+        "printf 'status=%s\\n\\0' \"$c05status\"\n"
+    for n in fn_names:
+        if IDENT.match(n):
+            t += "printf 'fn=%s\\n' " + n + "; type " + n + " 2>/dev/null; printf '\\0'\n"
+    return t
+
+
+def _parse_fn(blob, shell):
+    """status and {name: True | canonical body text (bash)} from the part after FN_MARK"""
+    status, fns = None, {}
+    for item in blob.split(b"\0"):
+        item = item.decode("utf-8", "surrogateescape")
+        if item.startswith("status="):
+            status = int(item[7:].strip() or -1)
+        elif item.startswith("fn="):
+            lines = item.split("\n")
+            name = lines[0][3:]
+            if len(lines) > 1 and "function" in lines[1]:
+                body = True
+                if shell == "bash" and len(lines) >= 5 and lines[3].strip() == "{":
+                    i = len(lines) - 1
+                    while i > 3 and lines[i].strip() != "}":
+                        i -= 1
+                    if any(l.count("'") % 2 for l in lines[4:i]):
+                        body = True     # a quoted word spans lines: the listing cannot be cut into commands line by line
+                    else:
+                        body = "; ".join(l[4:].rstrip(";") if l.startswith("    ") else l.rstrip(";") for l in lines[4:i])
+                fns[name] = body
+    return status, fns
+
+
+def run_shells_full(env_pairs, text, how="c", scratch=None, funcs0=(), fn_names=()):
+    """Evaluate text in dash and bash started with exactly env_pairs and the shell functions funcs0 ([name, body text]);
+    returns {shell: {"env": dict, "out": text written to stdout, "status": $?, "fns": {name: body|True}} | None}.
     how='c': `sh -c text`; how='source': text written to a file that the shell sources with `.`"""
     env = {k: v for k, v in env_pairs}
     res = {}
     cwd = shell_cwd()
+    pre = "".join("%s() { %s ; }\n" % (k, v) for k, v in funcs0)
+    tail = _tail(list(fn_names))
     for name, argv in SHELLS:
         if how == "source":
             path = os.path.join(scratch, "emitted.sh")
             with open(path, "w", encoding="utf-8", errors="surrogateescape") as f:
                 f.write(text)
-            cmd = argv + ["-c", '. "$1"' + TAIL, name, path]
+            cmd = argv + ["-c", pre + '. "$1"' + tail, name, path]
         else:
-            cmd = argv + ["-c", text + TAIL]
+            cmd = argv + ["-c", pre + text + tail]
         try:
             p = subprocess.run(cmd, env=env, stdout=subprocess.PIPE, stderr=subprocess.DEVNULL, stdin=subprocess.DEVNULL,
                                timeout=20, cwd=cwd)
-            res[name] = parse_env0(p.stdout)
+            e = parse_env0(p.stdout.split(FN_MARK)[0]) if FN_MARK in p.stdout else None
+            if e is None:
+                res[name] = None
+            else:
+                status, fns = _parse_fn(p.stdout.split(FN_MARK, 1)[1], name)
+                res[name] = {"env": e, "out": p.stdout[:p.stdout.rfind(MARK)].decode("utf-8", "surrogateescape"),
+                             "status": status, "fns": fns}
         except (subprocess.TimeoutExpired, ValueError, OSError) as e:
             res[name] = "ERR:" + type(e).__name__
     return res
+
+
+def envs_of(full):
+    """the environments only (what the delta oracle looks at)"""
+    return {k: (v["env"] if isinstance(v, dict) else v) for k, v in full.items()}
+
+
+def run_shells(env_pairs, text, how="c", scratch=None):
+    return envs_of(run_shells_full(env_pairs, text, how=how, scratch=scratch))
 
 
 def visible(env_pairs):
@@ -526,7 +735,22 @@ def impl_emit(case):
             cmds = app.setup("eups" if o["isEups"] else "prod", eupsenv=E, fwd=o["fwd"])
     except Exception as ex:  # noqa
         return {"exc": type(ex).__name__}
-    return {"cmds": cmds, "old": [list(x) for x in E.oldEnviron.items()], "cur": [list(x) for x in os.environ.items()]}
+    out = {"cmds": cmds, "old": [list(x) for x in E.oldEnviron.items()], "cur": [list(x) for x in os.environ.items()]}
+    if o["noaction"]:
+        # the same request without -n: what the -n text claims would be done
+        saved_old = dict(E.oldEnviron)
+        _set_environ(case["old"])
+        E.oldEnviron = os.environ.copy()
+        for k in case.get("forgotten", []):
+            E.oldEnviron[k] = None
+        E.noaction = False
+        try:
+            with _quiet(), contextlib.redirect_stdout(io.StringIO()):
+                out["plain_cmds"] = app.setup("eups" if o["isEups"] else "prod", eupsenv=E, fwd=o["fwd"])
+        except Exception as ex:  # noqa
+            out["plain_cmds"] = None
+        E.noaction = True
+    return out
 
 
 def impl_acts(case):
@@ -537,10 +761,15 @@ def impl_acts(case):
     _set_environ(case["base"])
     E.oldEnviron = os.environ.copy()
     E.aliases, E.oldAliases = {}, {}
+    E._stacks["env"] = []
     E.shell, E.noaction, E.verbose, E.quiet, E.force = "sh", False, 0, 1, case["force"]
+    env_obj = os.environ            # popStack("env") rebinds os.environ to a plain dict: put the real object back afterwards
 
     def fake_setup(productName, version, fwd, productRoot=None, tablefile=None):
         for a in case["acts"]:
+            if a["op"] in ("push", "pop", "drop"):
+                {"push": E.pushStack, "pop": E.popStack, "drop": E.dropStack}[a["op"]]("env")
+                continue
             if a["op"] == "envSet":
                 act = Action("t.table", "envSet", [a["k"], a["text"]], {})
             elif a["op"] == "alias":
@@ -556,9 +785,12 @@ def impl_acts(case):
         with _quiet(), contextlib.redirect_stdout(io.StringIO()):
             cmds = app.setup("prod", eupsenv=E, fwd=o["fwd"])
     except Exception as ex:  # noqa
+        os.environ = env_obj
         return {"exc": type(ex).__name__}
-    return {"cmds": cmds, "old": [list(x) for x in E.oldEnviron.items()], "cur": [list(x) for x in os.environ.items()],
-            "aliases": [list(x) for x in E.aliases.items()], "oldAliases": [list(x) for x in E.oldAliases.items()]}
+    res = {"cmds": cmds, "old": [list(x) for x in E.oldEnviron.items()], "cur": [list(x) for x in os.environ.items()],
+           "aliases": [list(x) for x in E.aliases.items()], "oldAliases": [list(x) for x in E.oldAliases.items()]}
+    os.environ = env_obj
+    return res
 
 
 def _stack_request(env_before, req):
@@ -620,6 +852,7 @@ def impl_stack(case):
         if r[0] != "ok":
             return {"declare": r[:3], "steps": []}
         steps = []
+        fenv = {}
         for req in case["requests"]:
             if req.get("local"):
                 pd = [p for p in case["products"] if p["name"] == req["product"]][0]
@@ -630,14 +863,202 @@ def impl_stack(case):
                 break
             st = r[1]
             text = ";\n".join(st["cmds"]) + "\n"
-            st["shells"] = run_shells(env, text, how="source", scratch=root)
+            f0 = [[k, v] for k, v in fenv.items()]
+            probed = sorted(set(list(fenv) + [k for k, _ in st["aliases"]] + [k for k, _ in st["oldAliases"]]))
+            st["shellsF"] = run_shells_full(env, text, how="source", scratch=root, funcs0=f0, fn_names=probed)
+            st["shells"] = envs_of(st["shellsF"])
+            st["funcs0"], st["probed"] = f0, probed
             st["base"] = env
             steps.append(st)
             if st["cmds"] == ["false"]:
                 continue
             env = st["cur"]                 # the next command starts from the environment eups computed
+            for k, v in st["aliases"]:      # ... and with the shell functions the text defined
+                fenv[k] = " ".join(v.split()) if simple_body(v) else "true"
+            for k, _ in st["oldAliases"]:
+                if k not in dict(st["aliases"]):
+                    fenv.pop(k, None)
             if "EUPS_PATH" not in dict(env):
                 break                       # unsetup eups: nothing can follow
+        os.environ.clear()
+        os.environ.update(saved)
+        return {"steps": steps, "root": root}
+    finally:
+        common.rmtree(root)
+
+
+# ---- the command line (bin/eups_setup -> setupcmd.EupsSetup.run -> eups.setup) -------------------------
+
+def gen_cli(rng):
+    """A real stack (as gen_stack) and 1-4 invocations of the real wrapper script with option combinations that reach
+    every exit of EupsSetup.run/execute: -h, -V, -l, no product, -m with and without a product, a missing table
+    file, -r on a product directory / a directory without ups / a missing directory, -r DIR PRODUCT VERSION with an
+    undeclared version, -j with -S, an unknown product, unsetup of something that is not set up."""
+    st = gen_stack(rng)
+    prods = [p for p in st["products"] if p["name"] != "eups"]
+    names = [p["name"] for p in prods]
+    calls = []
+    for _ in range(rng.randint(1, 4)):
+        c = {"help": False, "version": False, "list": False, "unsetup": False, "nodepend": False, "maxDepth": -1,
+             "tablefile": None, "productDir": None, "args": [], "nolocks": rng.random() < 0.5}
+        nm = rng.choice(names)
+        r = rng.random()
+        if r < 0.30:
+            c["args"] = [nm] + (["1"] if rng.random() < 0.4 else [])
+        elif r < 0.40:
+            c["args"] = [nm]
+            c["unsetup"] = True
+        elif r < 0.46:
+            c[rng.choice(["help", "version", "list"])] = True
+            if rng.random() < 0.5:
+                c["args"] = [nm]
+        elif r < 0.50:
+            pass                                              # nothing at all
+        elif r < 0.58:
+            c["args"] = [rng.choice(["nosuchproduct", nm])] + ([rng.choice(["9.9", "1"])] if rng.random() < 0.6 else [])
+        elif r < 0.70:
+            c["tablefile"] = rng.choice([["prodtable", nm], ["prodtable", nm], ["missing"], ["none"]])
+            if rng.random() < 0.5:
+                c["args"] = [nm]
+            c["unsetup"] = rng.random() < 0.15
+        elif r < 0.90:
+            c["productDir"] = rng.choice([["proddir", nm], ["proddir", nm], ["missing"], ["empty"]])
+            k = rng.random()
+            if k < 0.4:
+                c["args"] = [rng.choice([nm, "othername"])]
+            elif k < 0.7:
+                c["args"] = [nm, rng.choice(["1", "9.9"])]
+            if rng.random() < 0.2:
+                c["tablefile"] = ["prodtable", nm]
+        else:
+            c["args"] = [nm]
+            c["nodepend"] = True
+            c["maxDepth"] = rng.choice([-1, 0, 1, 2])
+        if not c["nodepend"] and rng.random() < 0.1:
+            c["maxDepth"] = rng.choice([0, 1])
+        if rng.random() < 0.3:
+            # `eups_setup NAME=value ...`: the wrapper's way of restoring a variable the caller's shell exports but the
+            # operating system strips from the Python process (DYLD_LIBRARY_PATH): it belongs to the caller's environment
+            c["envargs"] = [[rng.choice(["LD_LIBRARY_PATH", "LD_LIBRARY_PATH", "DYLD_LIBRARY_PATH", "P0_HOME"]),
+                             rng.choice(["/sip/lib", "/sip/my lib:/usr/lib", "/a(b)", ""])]]
+        calls.append(c)
+    return {"kind": "cli", "products": st["products"], "calls": calls, "extra": st["extra"]}
+
+
+def _cli_paths(root, prods, call):
+    """symbolic paths -> real ones, and the facts about them, from the structure of the case"""
+    def pdir(nm):
+        pd = [p for p in prods if p["name"] == nm][0]
+        return os.path.join(root, "stack0", "Linux", pd["name"], pd["dir"])
+    tf = call["tablefile"]
+    tfp, tf_exists = None, False
+    if tf:
+        if tf[0] == "prodtable":
+            tfp, tf_exists = os.path.join(pdir(tf[1]), "ups", tf[1] + ".table"), True
+        elif tf[0] == "missing":
+            tfp = os.path.join(root, "nowhere", "x.table")
+        else:
+            tfp = "none"
+    pd = call["productDir"]
+    pdp, ups_is_dir, tables = None, False, []
+    if pd:
+        if pd[0] == "proddir":
+            pdp, ups_is_dir, tables = pdir(pd[1]), True, [pd[1]]
+        elif pd[0] == "missing":
+            pdp = os.path.join(root, "nowhere")
+        else:
+            pdp = os.path.join(root, "emptydir")
+    found = len(call["args"]) > 1 and any(p["name"] == call["args"][0] and p["version"] == call["args"][1] for p in prods)
+    return tfp, pdp, {"tablefileExists": tf_exists, "upsIsDir": ups_is_dir, "tables": tables, "found": found}
+
+
+def _cli_argv(call, tfp, pdp):
+    a = ["-q"] if call.get("quiet") else []
+    if call["nolocks"]:
+        a.append("-N")
+    for k, f in (("help", "-h"), ("version", "-V"), ("list", "-l"), ("unsetup", "-u"), ("nodepend", "-j")):
+        if call[k]:
+            a.append(f)
+    if call["maxDepth"] != -1:
+        a += ["-S", str(call["maxDepth"])]
+    if tfp is not None:
+        a += ["-m", tfp]
+    if pdp is not None:
+        a += ["-r", pdp]
+    return a + call["args"]
+
+
+def _cli_run(env_before, argv, cwd):
+    """The real wrapper script bin/eups_setup(.in) in this (forked) process: stdout, exit status, what eups.setup
+    returned, os.environ afterwards."""
+    import runpy
+    import eups
+    _set_environ(env_before)
+    os.chdir(cwd)
+    sys_argv = ["eups_setup"] + argv
+    rec = {"reached": False, "cmds": None}
+    real = eups.setup
+
+    def recording(*a, **kw):
+        rec["reached"] = True
+        r = real(*a, **kw)
+        rec["cmds"] = list(r)
+        return r
+    eups.setup = recording
+    import sys as _sys
+    _sys.argv = sys_argv
+    out, code = io.StringIO(), 0
+    script = os.path.join(common.REPO, "bin", "eups_setup.in")
+    try:
+        with contextlib.redirect_stdout(out), _quiet():
+            try:
+                runpy.run_path(script, run_name="__main__")
+            except SystemExit as e:
+                code = e.code if isinstance(e.code, int) else (0 if e.code is None else 1)
+    finally:
+        eups.setup = real
+    return {"stdout": out.getvalue(), "status": code & 0xFF, "reached": rec["reached"], "cmds": rec["cmds"],
+            "cur": [list(x) for x in os.environ.items()]}
+
+
+def impl_cli(case):
+    root = common.scratch("c05c")
+    try:
+        saved = dict(os.environ)
+        cwd0 = os.getcwd()
+        common.mkstacks(root, default_product=True)
+        os.makedirs(os.path.join(root, "emptydir"))
+        env = [["PATH", "/usr/bin:/bin"], ["HOME", root], ["EUPS_SHELL", "sh"], ["EUPS_FLAVOR", "Linux"],
+               ["EUPS_PATH", os.environ["EUPS_PATH"]], ["EUPS_USERDATA", os.environ["EUPS_USERDATA"]]] + case["extra"]
+        r = common.in_child(_stack_declare, env, root, case["products"])
+        if r[0] != "ok":
+            return {"declare": r[:3], "steps": []}
+        steps = []
+        for call in case["calls"]:
+            tfp, pdp, world = _cli_paths(root, case["products"], call)
+            argv = _cli_argv(call, tfp, pdp)
+            pyenv = env
+            if call.get("envargs"):
+                ea = dict((k, v) for k, v in call["envargs"])
+                # the caller's shell: holds NAME=value (an empty value: does not hold NAME); the Python process: does not get NAME
+                env = [x for x in env if x[0] not in ea] + [[k, v] for k, v in call["envargs"] if v]
+                pyenv = [x for x in env if x[0] not in ea]
+                argv = ["%s=%s" % (k, v) for k, v in call["envargs"]] + argv
+            r = common.in_child(_cli_run, pyenv, argv, os.path.join(root, "emptydir"))
+            if r[0] != "ok":
+                steps.append({"exc": r[1:3]})
+                break
+            st = r[1]
+            st["world"], st["argv"], st["base"] = world, argv, env
+            st["tablefile"], st["productDir"] = tfp, pdp
+            if "`" not in st["stdout"] and "$(" not in st["stdout"]:
+                st["shellsF"] = run_shells_full(env, st["stdout"], how="source", scratch=root)
+            else:
+                st["shellsF"] = None
+            steps.append(st)
+            if st["status"] == 0 and st["reached"] and st["cmds"] != ["false"]:
+                env = [x for x in st["cur"] if x[0] != "EUPS_LOCK_PID"]
+        os.chdir(cwd0)
         os.environ.clear()
         os.environ.update(saved)
         return {"steps": steps, "root": root}
@@ -661,20 +1082,67 @@ def impl_case(case):
     kind = case["kind"]
     if kind == "shell":
         return {"shells": run_shells(case["env"], case["text"])}
+    if kind == "shellf":
+        return {"shellsF": run_shells_full(case["env"], case["text"], funcs0=case["funcs"],
+                                           fn_names=sorted(set(FN_NAMES + [k for k, _ in case["funcs"]])))}
     if kind == "stack":
         return impl_stack(case)
+    if kind == "cli":
+        return impl_cli(case)
     out = impl_emit(case) if kind == "emit" else impl_acts(case)
-    if "cmds" in out and case["opts"]["shell"] == "sh" and shell_safe(case, out):
+    sh_like = case["opts"]["shell"] == "sh" or (case["opts"]["shell"] == "zsh" and not case.get("aliases"))
+    if "cmds" in out and sh_like and shell_safe(case, out):
         base = case["old"] if kind == "emit" else case["base"]
-        out["shells"] = run_shells(base, ";\n".join(out["cmds"]) + "\n", how="source", scratch=_E._c05root)
+        f0 = funcs0_of(case)
+        probed = sorted(set([k for k, _ in f0] + [k for k, _ in out.get("aliases", case.get("aliases", []))] +
+                            [k for k, _ in out.get("oldAliases", case.get("oldAliases", []))]))
+        out["shellsF"] = run_shells_full(base, ";\n".join(out["cmds"]) + "\n", how="source", scratch=_E._c05root,
+                                         funcs0=f0, fn_names=probed)
+        out["shells"] = envs_of(out["shellsF"])
+        out["funcs0"], out["probed"] = f0, probed
     return out
+
+
+def simple_body(v):
+    """an alias value that can be handed to the shells as a predefined function and compared after normalisation"""
+    return bool(v) and bool(v.strip()) and all(c in SAFE + " " for c in v) and v.split()[0] not in RESERVED
+
+
+RESERVED = ["if", "then", "else", "elif", "fi", "case", "esac", "for", "while", "until", "do", "done", "in", "function",
+            "select", "time", "coproc"]
+
+
+def funcs0_of(case):
+    """The shell functions the caller's shell holds before it sources the text: the aliases eups believes to exist
+    (oldAliases); `acts` cases start with the aliases their unsetup actions will remove."""
+    if case["kind"] == "emit":
+        return [[k, " ".join(v.split()) if (v and simple_body(v)) else "true"] for k, v in case["oldAliases"] if IDENT.match(k)]
+    if case["kind"] == "acts":
+        seen, out = set(), []
+        for a in case["acts"]:
+            if a["op"] == "alias" and not a["fwd"] and a["k"] not in seen:
+                seen.add(a["k"])
+                out.append([a["k"], "true"])
+        return out
+    return []
 
 
 def shell_safe(case, out):
     """May the text be handed to a real shell at all?  (Not the claim: it only keeps command substitutions, which
     could run anything, away from the machine.)"""
     text = ";\n".join(out["cmds"])
-    return "`" not in text and "$(" not in text
+    if "`" not in text and "$(" not in text:
+        return True
+    # backquotes / $( ) that come from generated values of the quoted class are harmless whatever the emitter does with
+    # them (`true`, $(true), a lone backquote); anything else (alias bodies with `eups_setup ...`) stays away from the shells
+    vals = [v for _, v in out.get("cur", [])]
+    rest = text
+    for v in vals:
+        if ("`" in v or "$(" in v) and all(b not in v.replace("`true`", "").replace("$(true)", "") for b in ("$(",)) and \
+                v.replace("`true`", "").count("`") <= 1:
+            rest = rest.replace(v, "")
+    al = [v for _, v in (out.get("aliases") or case.get("aliases") or [])]
+    return "`" not in rest and "$(" not in rest and not any("`" in v or "$(" in v for v in al)
 
 
 def _mute():
@@ -687,7 +1155,12 @@ def _mute():
 
 def run_chunk(cases):
     _mute()
-    res = [impl_case(c) for c in cases]
+    # the real-stack kinds first: the synthetic kinds configure the worker's eups (no default product) in a way the
+    # real `Eups()` of a later stack case does not survive
+    order = sorted(range(len(cases)), key=lambda i: 0 if cases[i]["kind"] in ("stack", "cli") else 1)
+    res = [None] * len(cases)
+    for i in order:
+        res[i] = impl_case(cases[i])
     if _E is not None:
         common.rmtree(_E._c05root)
     if _CWD is not None:
@@ -707,7 +1180,9 @@ def model_request(case):
     if k == "acts":
         acts = []
         for a in case["acts"]:
-            if a["op"] == "alias":
+            if a["op"] in ("push", "pop", "drop"):
+                acts.append({"op": a["op"]})
+            elif a["op"] == "alias":
                 acts.append({"op": "alias", "force": case["force"], "fwd": a["fwd"], "k": a["k"], "v": a["v"]})
             elif a["op"] == "unset":
                 if a["fwd"]:
@@ -717,6 +1192,8 @@ def model_request(case):
         return {"m": "c05", "op": "acts", "base": case["base"], "acts": acts, "pinned": False, "opts": case["opts"]}
     if k == "shell":
         return {"m": "c05", "op": "sheval", "env": case["env"], "text": case["text"]}
+    if k == "shellf":
+        return {"m": "c05", "op": "shevalf", "env": case["env"], "funcs": case["funcs"], "text": case["text"]}
     raise ValueError(k)
 
 
@@ -737,7 +1214,7 @@ def expected_after_sourcing(base, computed, is_eups):
     return exp
 
 
-def claim_of(base, old_after, computed):
+def claim_of(base, old_after, computed, alphabet_only=False):
     """Is this delta inside the property's quantifier?  Names identifiers and not shell-special; every value that
     has to be written (new, changed, or re-exported because --force forgot the old value) over the claimed alphabet."""
     b = dict(base)
@@ -745,7 +1222,7 @@ def claim_of(base, old_after, computed):
     for k, v in computed:
         if not re.match(r"^[A-Za-z_][A-Za-z0-9_]*$", k) or SPECIAL.match(k):
             return False
-        if oa.get(k) != v and not in_alphabet(v):
+        if oa.get(k) != v and not (in_alphabet(v) if alphabet_only else in_claim_value(v)):
             return False
     for k in b:
         if not re.match(r"^[A-Za-z_][A-Za-z0-9_]*$", k) or SPECIAL.match(k):
@@ -763,6 +1240,9 @@ def check_delta(ctx, case, inp, base, old_after, computed, shells, is_eups, mode
     if any(k in dict(computed) or k in dict(base) for k in alias_names):
         ctx.hist("delta:alias-named-like-variable")
     ctx.hist("delta:in-claim")
+    oa_ = dict((k, v) for k, v in old_after)
+    if any(oa_.get(k) != v and quoted_literal(v) and not in_alphabet(v) for k, v in computed):
+        ctx.hist("delta:quoted-value-with-shell-special-text")
     exp = expected_after_sourcing(base, computed, is_eups)
     for sh, got in shells.items():
         if got != exp:
@@ -771,6 +1251,141 @@ def check_delta(ctx, case, inp, base, old_after, computed, shells, is_eups, mode
                     if not isinstance(got, dict) or got.get(k) != exp.get(k)}
             ctx.fail("sourced_env_equals_computed", inp, impl_out, model_out,
                      note="%s: {var: [after sourcing, computed]} = %s" % (sh, common.jdump(_subst(diff, root))[:600]))
+
+
+def check_functions(ctx, inp, funcs0, aliases, old_aliases, full, noaction, impl_out, root=None):
+    """Oracle (ii), no model: after sourcing, the shell holds exactly the functions it had, plus the aliases eups set,
+    minus the aliases eups removed (bash: with the alias' text as body, up to blanks); under -n nothing changes.
+    Only for alias values that are plain command lines (words over the safe characters)."""
+    if full is None or not (aliases or old_aliases or funcs0):
+        return
+    if not all(IDENT.match(k) and k not in RESERVED + ["export", "unset", "true", "false", "echo"] for k, _ in aliases):
+        return
+    if not all(simple_body(v) for _, v in aliases):
+        ctx.hist("functions:outside-claim")
+        return
+    exp = dict((k, v) for k, v in funcs0)
+    if not noaction:
+        od = dict((k, v) for k, v in old_aliases)
+        for k, v in aliases:
+            if not (k in od and od[k] == v):
+                exp[k] = " ".join(v.split())
+        for k, _ in old_aliases:
+            if k not in dict(aliases):
+                exp.pop(k, None)
+    ctx.hist("functions:in-claim")
+    if exp != dict((k, v) for k, v in funcs0):
+        ctx.hist("functions:changed")
+    for sh, got in full.items():
+        if not isinstance(got, dict):
+            continue                    # reported by sourced_env_equals_computed
+        bad = sorted(k for k in set(exp) | set(got["fns"])
+                     if (k in exp) != (k in got["fns"]) or (k in exp and isinstance(got["fns"][k], str) and got["fns"][k] != exp[k]))
+        if bad:
+            ctx.fail("sourced_functions_equal_aliases", inp, impl_out, None,
+                     note="%s: functions %s: after sourcing %s, expected %s" % (sh, bad, common.jdump(got["fns"])[:300], common.jdump(exp)[:300]))
+
+
+def csh_read(cmds):
+    """What csh does with the emitted commands, read off its manual (no csh binary here): `setenv NAME WORD`,
+    `unsetenv NAME`, `alias NAME 'TEXT'`, `unalias NAME`; a WORD is a run of ordinary characters or a single-quoted string
+    (every character literal; csh has no way to put a quote inside, and an unescaped newline ends the line).
+    Returns (sets, unsets, aliases, unaliases) or None when a command is not of these shapes."""
+    sets, unsets, al, unal = {}, [], {}, []
+
+    def word(w, alias=False):
+        # (an alias text may hold \!*, csh's way of writing "the arguments"; elsewhere ! would be history substitution)
+        if len(w) >= 2 and w[0] == "'" and w[-1] == "'" and "'" not in w[1:-1] and "\n" not in w and (alias or "!" not in w):
+            return w[1:-1]
+        if w and all(c in SAFE for c in w):
+            return w
+        return None
+    for c in cmds:
+        m = re.match(r"^setenv ([A-Za-z_][A-Za-z0-9_]*) (.*)$", c, re.S)
+        if m:
+            v = "" if m.group(2) == "" else word(m.group(2))
+            if v is None:
+                return None
+            sets[m.group(1)] = v
+            continue
+        m = re.match(r"^unsetenv ([A-Za-z_][A-Za-z0-9_]*)$", c)
+        if m:
+            unsets.append(m.group(1))
+            continue
+        m = re.match(r"^alias ([A-Za-z_][A-Za-z0-9_]*) (.*)$", c, re.S)
+        if m and word(m.group(2), alias=True) is not None:
+            al[m.group(1)] = word(m.group(2), alias=True)
+            continue
+        m = re.match(r"^unalias ([A-Za-z_][A-Za-z0-9_]*)$", c)
+        if m:
+            unal.append(m.group(1))
+            continue
+        return None
+    return sets, unsets, al, unal
+
+
+def check_csh(ctx, inp, base, old_after, computed, cmds, is_eups, impl_out):
+    """Oracle (ii) for the csh dialect, at the level of the text: read as csh reads it, the command list takes the caller's
+    environment to the computed one (values over the alphabet, without newline: csh cannot quote one)."""
+    if not claim_of(base, old_after, computed, alphabet_only=True) or \
+            any("\n" in v for k, v in computed if dict(old_after).get(k) != v):
+        ctx.hist("csh:outside-claim")
+        return
+    ctx.hist("csh:in-claim")
+    r = csh_read(cmds)
+    if r is None:
+        ctx.fail("csh_text_reproduces_computed_environment", inp, impl_out, None,
+                 note="a command is not a setenv/unsetenv/alias/unalias of words csh reads literally: %s" % common.jdump(cmds)[:400])
+        return
+    sets, unsets, al, unal = r
+    env = visible(base)
+    env.update(sets)
+    for k in unsets:
+        env.pop(k, None)
+    exp = expected_after_sourcing(base, computed, is_eups)
+    if env != exp:
+        diff = {k: [env.get(k), exp.get(k)] for k in set(env) | set(exp) if env.get(k) != exp.get(k)}
+        ctx.fail("csh_text_reproduces_computed_environment", inp, impl_out, None,
+                 note="{var: [after the csh commands, computed]} = %s" % common.jdump(diff)[:500])
+    want_al = dict((k, re.sub(r'"?\$@"?', r"\\!*", v)) for k, v in inp.get("aliases", [])
+                   if dict((a, b) for a, b in inp.get("oldAliases", [])).get(k) != v)
+    if all(simple_body(v) for v in want_al.values()) and (al != want_al or
+                                                         sorted(unal) != sorted(k for k, _ in inp.get("oldAliases", []) if k not in dict(inp.get("aliases", [])))):
+        ctx.fail("csh_text_reproduces_computed_environment", inp, impl_out, None,
+                 note="aliases: text defines %r and removes %r" % (al, unal))
+
+
+def check_noaction(ctx, inp, base, funcs0, full, impl_out, plain=None):
+    """Oracle (ii): sourcing what `setup -n` prints changes nothing in the shell and succeeds."""
+    if full is None:
+        return
+    if not all(IDENT.match(k) and not SPECIAL.match(k) for k, _ in base):
+        return
+    ctx.hist("noaction:sourced")
+    for sh, got in full.items():
+        if not isinstance(got, dict) or got["env"] != visible(base) or got["status"] != 0:
+            ctx.fail("noaction_text_changes_nothing", inp, impl_out, None,
+                     note="%s: after sourcing the -n text: %s" % (sh, common.jdump(got)[:400]))
+    if plain is not None and not inp.get("aliases"):
+        # ... and prints the commands the same request prints without -n (SETUP_* variables hidden unless -vv)
+        exp = [c for c in plain if inp["opts"]["verbose2"] or "SETUP_" not in c.split("=")[0]]
+        ctx.hist("noaction:echo-compared")
+        for sh, got in full.items():
+            if isinstance(got, dict) and got["out"] != "".join(c + "\n" for c in exp):
+                ctx.fail("noaction_prints_the_commands", inp, impl_out, None,
+                         note="%s: printed %s, the request without -n emits %s" % (sh, common.jdump(got["out"])[:300], common.jdump(exp)[:300]))
+
+
+def check_failure(ctx, inp, base, funcs0, full, impl_out, root=None):
+    """Oracle (ii): a failed request prints `false`: the environment is untouched and the caller sees a failure."""
+    if full is None:
+        return
+    ctx.hist("failure:sourced")
+    for sh, got in full.items():
+        if not isinstance(got, dict) or got["env"] != visible(base) or got["status"] == 0 or \
+                got["fns"] != dict((k, v) if sh == "bash" else (k, True) for k, v in funcs0):
+            ctx.fail("failed_request_leaves_shell_untouched_and_reports_failure", inp, impl_out, None,
+                     note="%s: after sourcing: %s" % (sh, common.jdump(_subst(got, root))[:400]))
 
 
 def compare_shell_model(ctx, inp, shells, ans, what, root=None):
@@ -793,9 +1408,46 @@ def compare_shell_model(ctx, inp, shells, ans, what, root=None):
     return True
 
 
+def compare_shellf_model(ctx, inp, full, ans, what, probed, root=None):
+    """Oracle (i) for the second layer of the shell model: environment, defined functions among `probed` (bash: their
+    bodies too), echoed text and exit status of both shells = shEvalF's whenever the text is in the fragment."""
+    if full is None:
+        return None
+    if "bad-op" in ans:
+        ctx.disagree("shEvalF", inp, full, ans)
+        return None
+    if ans.get("none"):
+        ctx.hist(what + ":outside-fragment")
+        return False
+    ctx.hist(what + ":in-fragment")
+    menv, mf = visible(ans["env"]), dict((k, v) for k, v in ans["funcs"])
+    mout = "".join(l + "\n" for l in ans["out"])
+    for sh, got in full.items():
+        bad = None
+        if not isinstance(got, dict):
+            bad = "the real shell rejects the text"
+        elif got["env"] != menv:
+            bad = "environment"
+        elif got["out"] != mout:
+            bad = "echoed text"
+        elif got["status"] != ans["status"]:
+            bad = "exit status"
+        else:
+            for k in probed:
+                if (k in got["fns"]) != (k in mf):
+                    bad = "function %s defined" % k
+                elif k in mf and isinstance(got["fns"][k], str) and got["fns"][k] != mf[k]:
+                    bad = "body of function %s" % k
+        if bad:
+            ctx.disagree("shEvalF_vs_" + sh, inp, _subst(got, root), _subst(ans, root),
+                         note="text evaluated by the real shell differs from shEvalF: " + bad)
+            break
+    return True
+
+
 # ---- evaluation ------------------------------------------------------------------------------------
 
-NW = 6
+NW = 4
 
 
 def evaluate(ctx, cases):
@@ -808,7 +1460,19 @@ def evaluate(ctx, cases):
     # round 1: emitter / action / shell-text models
     reqs, where = [], []
     for i, (c, io_) in enumerate(zip(cases, impl)):
-        if c["kind"] == "stack":
+        if c["kind"] == "cli":
+            for j, st in enumerate(io_["steps"]):
+                if "stdout" in st:
+                    call = c["calls"][j]
+                    inner = "returned"
+                    if not (st["reached"] and st["cmds"] is not None) and st["status"] in (1, 255):
+                        inner = "EupsException" if st["status"] == 1 else "other"
+                    where.append((i, j))
+                    reqs.append({"m": "c05", "op": "cli", "inner": inner, "cmds": st["cmds"] or [], "world": st["world"],
+                                 "cli": {"help": call["help"], "version": call["version"], "list": call["list"],
+                                         "unsetup": call["unsetup"], "nodepend": call["nodepend"], "maxDepth": call["maxDepth"],
+                                         "tablefile": st["tablefile"], "productDir": st["productDir"], "args": call["args"]}})
+        elif c["kind"] == "stack":
             for j, st in enumerate(io_["steps"]):
                 if "cmds" in st and st["cmds"] != ["false"]:
                     where.append((i, j))
@@ -826,15 +1490,26 @@ def evaluate(ctx, cases):
     # round 2: shEval on the text the implementation emitted
     reqs2, where2 = [], []
     for i, (c, io_) in enumerate(zip(cases, impl)):
+        if c["kind"] == "emit" and c["opts"]["shell"] == "csh" and not c["opts"]["noaction"] and "cmds" in io_:
+            fg = c.get("forgotten", [])
+            where2.append((i, "csh"))
+            reqs2.append({"m": "c05", "op": "csh", "base": c["old"], "old": [[k, None if k in fg else v] for k, v in c["old"]],
+                          "new": c["new"], "opts": c["opts"]})
         if c["kind"] in ("emit", "acts") and io_.get("shells") is not None:
             where2.append((i, None))
-            reqs2.append({"m": "c05", "op": "sheval", "env": c["old"] if c["kind"] == "emit" else c["base"],
-                          "text": ";\n".join(io_["cmds"]) + "\n"})
+            reqs2.append({"m": "c05", "op": "shevalf", "env": c["old"] if c["kind"] == "emit" else c["base"],
+                          "funcs": io_["funcs0"], "text": ";\n".join(io_["cmds"]) + "\n"})
+        elif c["kind"] == "cli":
+            for j, st in enumerate(io_["steps"]):
+                if st.get("shellsF") is not None:
+                    where2.append((i, j))
+                    reqs2.append({"m": "c05", "op": "shevalf", "env": st["base"], "funcs": [], "text": st["stdout"]})
         elif c["kind"] == "stack":
             for j, st in enumerate(io_["steps"]):
                 if "cmds" in st:
                     where2.append((i, j))
-                    reqs2.append({"m": "c05", "op": "sheval", "env": st["base"], "text": ";\n".join(st["cmds"]) + "\n"})
+                    reqs2.append({"m": "c05", "op": "shevalf", "env": st["base"], "funcs": st["funcs0"],
+                                  "text": ";\n".join(st["cmds"]) + "\n"})
     sheval = dict(zip(where2, ctx.lean.ask_many(reqs2)))
 
     for i, (c, io_) in enumerate(zip(cases, impl)):
@@ -846,6 +1521,82 @@ def evaluate(ctx, cases):
             infrag = compare_shell_model(ctx, inp, io_["shells"], ans, "text")
             changed = bool(infrag) and visible(ans["env"]) != visible(c["env"])
             ctx.case(key=c, nontrivial=changed, sample={"input": c, "impl": io_} if ctx.evaluations % 499 == 0 else None)
+            continue
+        if kind == "shellf":
+            ans = model[(i, None)]
+            probed = sorted(set(FN_NAMES + [k for k, _ in c["funcs"]]))
+            infrag = compare_shellf_model(ctx, inp, io_["shellsF"], ans, "textF", probed)
+            if infrag:
+                if ans["funcs"] != c["funcs"]:
+                    ctx.hist("textF:functions-changed")
+                if ans["out"]:
+                    ctx.hist("textF:echo")
+                if ans["status"]:
+                    ctx.hist("textF:status-nonzero")
+            changed = bool(infrag) and (visible(ans["env"]) != visible(c["env"]) or ans["funcs"] != c["funcs"] or bool(ans["out"]))
+            ctx.case(key=c, nontrivial=changed, sample={"input": c, "impl": io_} if ctx.evaluations % 499 == 0 else None)
+            continue
+        if kind == "cli":
+            if "declare" in io_:
+                raise common.InfraError("could not declare the generated products: %r" % (io_["declare"],))
+            root = io_["root"]
+            nontriv = False
+            for j, st in enumerate(io_["steps"]):
+                sub = {"kind": "cli", "products": c["products"], "calls": c["calls"][:j + 1], "extra": c["extra"]}
+                if "exc" in st:
+                    ctx.hist("cli:harness-exception=%s" % st["exc"][0])
+                    ctx.disagree("cli_runs", sub, st, None)
+                    continue
+                m = model.get((i, j))
+                got = {"stdout": st["stdout"] or None, "status": st["status"]}
+                ctx.hist("cli:status=%d%s" % (st["status"], "" if st["stdout"] else "/silent"))
+                if c["calls"][j].get("envargs") and st["status"] == 0 and st["reached"] and st["cmds"] != ["false"]:
+                    ctx.hist("cli:NAME=value-argument/success")
+                if st["cmds"] == ["false"]:
+                    ctx.hist("cli:false-from-eups.setup")
+                if m != got:
+                    ctx.disagree("cli_stdout_and_status", sub, _subst(dict(got, argv=st["argv"], reached=st["reached"]), root),
+                                 _subst(m, root))
+                if st.get("shellsF") is None:
+                    continue
+                compare_shellf_model(ctx, sub, st["shellsF"], sheval[(i, j)], "emitted", [], root=root)
+                failed = st["status"] != 0 or st["cmds"] == ["false"] or not st["reached"]
+                call = c["calls"][j]
+                declared = [(p["name"], p["version"]) for p in c["products"]]
+                # from the structure of the case alone: a product or version that does not exist cannot be set up
+                must_fail = bool(call["args"]) and not call["productDir"] and not (call["tablefile"] and not call["unsetup"]) and \
+                    not (call["help"] or call["version"] or call["list"]) and not call["unsetup"] and \
+                    not any(n == call["args"][0] and (len(call["args"]) < 2 or v == call["args"][1]) for n, v in declared)
+                # ... and neither can a product that has no table file in the directory given with -r
+                if call["productDir"] and call["productDir"][0] == "proddir" and call["args"] and not call["tablefile"] and \
+                        call["args"][0] != call["productDir"][1] and not (call["help"] or call["version"] or call["list"]):
+                    must_fail = True
+                if must_fail:
+                    ctx.hist("cli:request-that-must-fail")
+                    for sh, g in st["shellsF"].items():
+                        if not isinstance(g, dict) or g["status"] == 0 or g["env"] != visible(st["base"]):
+                            ctx.fail("failed_request_leaves_shell_untouched_and_reports_failure", sub,
+                                     _subst({"stdout": st["stdout"], "status": st["status"]}, root), _subst(m, root),
+                                     note="%s: the request cannot succeed, yet after sourcing: %s" % (sh, common.jdump(_subst(g, root))[:300]))
+                if failed:
+                    # oracle (ii): whatever went wrong, the caller's shell is untouched; when something was printed it is
+                    # a failing command
+                    ctx.hist("cli:failure-sourced")
+                    for sh, g in st["shellsF"].items():
+                        if not isinstance(g, dict) or g["env"] != visible(st["base"]) or (st["stdout"].strip() and g["status"] == 0):
+                            ctx.fail("failed_request_leaves_shell_untouched_and_reports_failure", sub,
+                                     _subst({"stdout": st["stdout"], "status": st["status"]}, root), _subst(m, root),
+                                     note="%s: after sourcing: %s" % (sh, common.jdump(_subst(g, root))[:400]))
+                else:
+                    nontriv = nontriv or bool(st["cmds"])
+                    old_after = [[k, v] for k, v in st["base"]]
+                    # lock.takeLocks puts EUPS_LOCK_PID into the process environment for its children *before* Eups takes
+                    # the baseline of the delta: it is deliberately not part of what the shell is told
+                    cur = [x for x in st["cur"] if x[0] != "EUPS_LOCK_PID" or x[0] in dict(st["base"])]
+                    check_delta(ctx, c, sub, st["base"], old_after, cur, envs_of(st["shellsF"]),
+                                bool(c["calls"][j]["args"]) and c["calls"][j]["args"][0] == "eups",
+                                _subst(m, root), _subst({"stdout": st["stdout"], "status": st["status"]}, root), root=root)
+            ctx.case(key=c, nontrivial=nontriv, sample={"input": c, "impl": _subst(io_, root)} if ctx.evaluations % 199 == 0 else None)
             continue
         if kind == "stack":
             if "declare" in io_:
@@ -864,6 +1615,9 @@ def evaluate(ctx, cases):
                     continue
                 if st["cmds"] == ["false"]:
                     ctx.hist("stack:refused")
+                    sub = {"kind": "stack", "products": c["products"], "requests": c["requests"][:j + 1], "extra": c["extra"]}
+                    compare_shellf_model(ctx, sub, st["shellsF"], sheval[(i, j)], "emitted", st["probed"], root=io_["root"])
+                    check_failure(ctx, sub, st["base"], st["funcs0"], st["shellsF"], _subst(st["cmds"], io_["root"]), root=io_["root"])
                     continue
                 any_cmd = any_cmd or bool(st["cmds"])
                 m = model.get((i, j))
@@ -871,7 +1625,10 @@ def evaluate(ctx, cases):
                 root = io_["root"]
                 if m is None or m.get("cmds") != st["cmds"]:
                     ctx.disagree("emitted_commands", sub, _subst(st["cmds"], root), _subst(m, root))
-                compare_shell_model(ctx, sub, st["shells"], sheval[(i, j)], "emitted", root=root)
+                compare_shellf_model(ctx, sub, st["shellsF"], sheval[(i, j)], "emitted", st["probed"], root=root)
+                if claim_of(st["base"], st["old"], st["cur"]):
+                    check_functions(ctx, sub, st["funcs0"], st["aliases"], st["oldAliases"], st["shellsF"], False,
+                                    _subst(st["cmds"], root), root=root)
                 if m is not None and "final" in m and m["final"] != st["cur"]:
                     ctx.disagree("computed_environment", sub, _subst(st["cur"], root), _subst(m["final"], root))
                 check_delta(ctx, c, sub, st["base"], st["old"], st["cur"], st["shells"], req["product"] == "eups",
@@ -888,6 +1645,8 @@ def evaluate(ctx, cases):
             continue
         o = c["opts"]
         ctx.hist("%s:shell=%s%s" % (kind, o["shell"], "/noaction" if o["noaction"] else ""))
+        if kind == "acts" and any(a["op"] == "pop" for a in c["acts"]):
+            ctx.hist("acts:changes-thrown-away-by-popStack")
         if kind == "emit" and o["shell"] == "sh" and not o["noaction"] and not o["isEups"]:
             gone = [k for k, _ in c["old"] if k not in dict(c["new"])]
             if any(k not in PROTECTED and any(k.upper().find(p) >= 0 or p.startswith(k.upper()) for p in PROTECTED) for k in gone):
@@ -900,7 +1659,9 @@ def evaluate(ctx, cases):
             if dropped:
                 ctx.hist("emit:unsetup-eups/dropped-variable-in-caller-env")
         ctx.hist("ncmds=%s" % min(len(io_["cmds"]), 10))
-        if any(x.startswith("export ") and "='" in x for x in io_["cmds"]):
+        # (from the case, not from what the implementation printed: a floor must not depend on the code under test)
+        vals = [v for _, v in c["new"]] if kind == "emit" else [a.get("v") or "" for a in c["acts"]]
+        if any(quoted_literal(v) for v in vals):
             ctx.hist("quoted-value")
         if m.get("unmodelled"):
             ctx.hist(kind + ":unmodelled")
@@ -918,9 +1679,32 @@ def evaluate(ctx, cases):
                       "oldAliases": io_["oldAliases"]}
         if mo != io_cmp:
             ctx.disagree("emitted_commands" if mo["cmds"] != io_cmp["cmds"] else "environment_bookkeeping", inp, io_cmp, mo)
+        if kind == "emit" and o["shell"] == "csh" and not o["noaction"]:
+            check_csh(ctx, inp, c["old"], io_["old"], io_["cur"], io_["cmds"], o["isEups"], io_cmp)
+            # the Lean reading of csh words (cshWord, what C05_csh_roundtrip is about) and the harness's reader agree
+            ans = sheval.get((i, "csh"))
+            r = csh_read([x for x in io_["cmds"] if not x.startswith(("alias ", "unalias "))])
+            if ans is not None and "bad-op" not in ans:
+                py = None
+                if r is not None:
+                    py = visible(c["old"])
+                    py.update(r[0])
+                    for k in r[1]:
+                        py.pop(k, None)
+                lean = None if ans.get("none") else visible(ans["env"])
+                if py != lean and m.get("cmds") == io_["cmds"]:
+                    ctx.disagree("csh_reading", inp, py, lean, note="csh_read (harness) and cshApplyAll (model) read the csh text differently")
         if io_.get("shells") is not None:
+            if o["shell"] == "zsh":
+                ctx.hist("emit:zsh-text-sourced")
             base = c["old"] if kind == "emit" else c["base"]
-            compare_shell_model(ctx, inp, io_["shells"], sheval[(i, None)], "emitted")
+            compare_shellf_model(ctx, inp, io_["shellsF"], sheval[(i, None)], "emitted", io_["probed"])
+            if claim_of(base, io_["old"], io_["cur"]):
+                check_functions(ctx, inp, io_["funcs0"], io_.get("aliases", c.get("aliases", [])),
+                                io_.get("oldAliases", c.get("oldAliases", [])), io_["shellsF"], o["noaction"], io_cmp)
+                # under -n the commands sit inside echo "...": $, backquote, backslash and double quote are not literal there
+                if o["noaction"] and claim_of(base, io_["old"], io_["cur"], alphabet_only=True):
+                    check_noaction(ctx, inp, base, io_["funcs0"], io_["shellsF"], io_cmp, plain=io_.get("plain_cmds"))
             if not o["noaction"]:
                 check_delta(ctx, c, inp, base, io_["old"], io_["cur"], io_["shells"], o["isEups"], mo, io_cmp,
                             alias_names=[k for k, _ in io_.get("aliases", c.get("aliases", []))] +
@@ -941,7 +1725,7 @@ def corpus_cases():
 
 
 def gen_case(rng, kind):
-    return {"emit": gen_emit, "acts": gen_acts, "stack": gen_stack, "shell": gen_shell}[kind](rng)
+    return {"emit": gen_emit, "acts": gen_acts, "stack": gen_stack, "shell": gen_shell, "shellf": gen_shellf, "cli": gen_cli}[kind](rng)
 
 
 ENUM_ALPHA = "a/= \t\n<>|&;()'"
@@ -962,23 +1746,25 @@ def enum_cases(maxlen):
     return out
 
 
-def run(ctx):
-    cases = corpus_cases()
-    ctx.hist("corpus", len(cases))
-    evaluate(ctx, cases)
-    en = enum_cases(ctx.n(2, 3))
-    ctx.hist("enumerated-values", sum(len(c["new"]) - 1 for c in en))
-    for i in range(0, len(en), 600):
-        evaluate(ctx, en[i:i + 600])
-    budget = [("emit", ctx.n(2400, 60000)), ("acts", ctx.n(1200, 30000)), ("shell", ctx.n(3000, 100000)),
-              ("stack", ctx.n(200, 4000))]
-    for kind, n in budget:
-        done = 0
-        batch = 600 if kind != "stack" else 48
-        while done < n and not ctx.out_of_time():
-            k = min(batch, n - done)
+QUICK = [("emit", 2000, 500), ("stack", 120, 40), ("cli", 72, 24), ("acts", 600, 300), ("shellf", 1000, 500), ("shell", 1200, 400)]
+THOROUGH = [("emit", 60000, 600), ("stack", 4000, 48), ("cli", 3000, 48), ("acts", 30000, 600), ("shellf", 60000, 600),
+            ("shell", 100000, 600)]
+
+
+def run_stream(ctx, budget):
+    """The generated stream, round-robin over the case classes: every class gets a slice per round, so that a time limit
+    (loaded machine, enlarged budget) starves none of them."""
+    done = {k: 0 for k, _, _ in budget}
+    while not ctx.out_of_time() and any(done[k] < n for k, n, _ in budget):
+        for kind, n, batch in budget:
+            if done[kind] >= n or ctx.out_of_time():
+                continue
+            k = min(batch, n - done[kind])
             evaluate(ctx, [gen_case(ctx.rng, kind) for _ in range(k)])
-            done += k
+            done[kind] += k
+
+
+def check_floors(ctx):
     h = ctx.histogram
     if h.get("delta:in-claim", 0) < 0.2 * max(1, h.get("kind=emit", 0) + h.get("kind=acts", 0)):
         raise common.InfraError("degenerate distribution: %d deltas inside the claim" % h.get("delta:in-claim", 0))
@@ -991,8 +1777,53 @@ def run(ctx):
     if h.get("emit:unsetup-eups/dropped-variable-in-caller-env", 0) < 20 or h.get("stack:unsetup-eups", 0) < 5:
         raise common.InfraError("degenerate distribution: unsetup of eups itself reached %d (synthetic) / %d (real stack) times"
                                 % (h.get("emit:unsetup-eups/dropped-variable-in-caller-env", 0), h.get("stack:unsetup-eups", 0)))
+    if h.get("textF:in-fragment", 0) < 0.25 * max(1, h.get("kind=shellf", 0)) or h.get("textF:functions-changed", 0) < 30:
+        raise common.InfraError("degenerate distribution: %d texts with functions/echo inside the fragment, %d changing the functions"
+                                % (h.get("textF:in-fragment", 0), h.get("textF:functions-changed", 0)))
+    if h.get("functions:changed", 0) < 30 or h.get("noaction:sourced", 0) < 20:
+        raise common.InfraError("degenerate distribution: aliases changed the shell's functions %d times, -n texts sourced %d times"
+                                % (h.get("functions:changed", 0), h.get("noaction:sourced", 0)))
+    if h.get("cli:NAME=value-argument/success", 0) < 8:
+        raise common.InfraError("degenerate distribution: %d successful command lines with a NAME=value argument"
+                                % h.get("cli:NAME=value-argument/success", 0))
+    if h.get("cli:failure-sourced", 0) < 10 or h.get("cli:status=0", 0) < 10 or h.get("cli:status=3/silent", 0) < 2:
+        raise common.InfraError("degenerate distribution: command-line cases: %d failures sourced, %d successes, %d usage errors"
+                                % (h.get("cli:failure-sourced", 0), h.get("cli:status=0", 0), h.get("cli:status=3/silent", 0)))
+    if h.get("delta:quoted-value-with-shell-special-text", 0) < 150:
+        raise common.InfraError("degenerate distribution: %d deltas write a quoted value that also holds $NAME, a backquote, a "
+                                "backslash or a double quote" % h.get("delta:quoted-value-with-shell-special-text", 0))
+    if h.get("acts:changes-thrown-away-by-popStack", 0) < 10:
+        raise common.InfraError("degenerate distribution: %d action sequences with changes thrown away by popStack"
+                                % h.get("acts:changes-thrown-away-by-popStack", 0))
+    if h.get("csh:in-claim", 0) < 40 or h.get("emit:zsh-text-sourced", 0) < 20:
+        raise common.InfraError("degenerate distribution: %d csh texts inside the claim, %d zsh texts sourced"
+                                % (h.get("csh:in-claim", 0), h.get("emit:zsh-text-sourced", 0)))
     if h.get("quoted-value", 0) < 0.2 * max(1, h.get("kind=emit", 0)):
         raise common.InfraError("degenerate distribution: %d cases with a quoted value" % h.get("quoted-value", 0))
+
+
+def run(ctx):
+    """The ordinary quick portion first and completely - corpus, the enumeration slice, the generated stream of every class,
+    the distribution floors - and only then whatever the thorough tier (or a quick run escalated because the mirrored
+    source changed) adds."""
+    cases = corpus_cases()
+    ctx.hist("corpus", len(cases))
+    evaluate(ctx, cases)
+    en = enum_cases(2)
+    ctx.hist("enumerated-values", sum(len(c["new"]) - 1 for c in en))
+    for i in range(0, len(en), 600):
+        evaluate(ctx, en[i:i + 600])
+    run_stream(ctx, QUICK)
+    check_floors(ctx)
+    if ctx.tier == "thorough" or ctx.escalated:
+        if not ctx.out_of_time():
+            en = enum_cases(3)[len(en):]
+            ctx.hist("enumerated-values", sum(len(c["new"]) - 1 for c in en))
+            for i in range(0, len(en), 600):
+                if ctx.out_of_time():
+                    break
+                evaluate(ctx, en[i:i + 600])
+        run_stream(ctx, [(k, n - dict((a, b) for a, b, _ in QUICK)[k], batch) for k, n, batch in THOROUGH])
 
 
 def replay(ctx, rp):
